@@ -112,7 +112,7 @@ func runValueProperty(t *testing.T, id, check string, gen func(rt *rapid.T) valC
 }
 
 func genValCase(rt *rapid.T, g *aval.Gen, allFormats bool) valCase {
-	format := rapid.SampledFrom(formats).Draw(rt, "format")
+	format := formats[pick(rt, len(formats), "format")]
 	var t = drawType(rt, roots)
 	if format == "query-fields" {
 		t = drawType(rt, records)
